@@ -427,11 +427,19 @@ class StreamableHTTPTransport(Transport):
 
     async def _route_response(self, response_data: Dict[str, Any]) -> None:
         """Route response to the appropriate handler."""
+        if isinstance(response_data, list):
+            # JSON-RPC batch body: deliver every member, in order
+            for item in response_data:
+                await self._route_response(item)
+            return
+
         try:
             from chuk_mcp.protocol.messages.json_rpc_message import JSONRPCMessage
 
             # Create JSON-RPC message
             message = JSONRPCMessage.model_validate(response_data)  # type: ignore[attr-defined]
+            if message.method is None and message.id is None:
+                raise ValueError("not a JSON-RPC message (neither method nor id)")
 
             # Check if this is a response (has id but no method)
             if hasattr(message, "id") and message.id and not hasattr(message, "method"):
